@@ -21,7 +21,7 @@ func init() {
 		Title: "Interrupts and abnormal exits: prompt delivery, clean unwind, reusable runtime",
 		Rule: fmt.Sprintf("programs = every nesting (quick: depth 1, thorough: depth <= 2; throw family: depth <= 2 in both tiers) of the %d context wrappers around each body; ", len(wrappers)) +
 			"one case = (program, injection): interrupt families inject at EVERY evaluation step k of the program (non-terminating bodies: k <= 60 quick, k <= 200 / 100 at depth 1 / 2 thorough), " +
-			"hostpanic at every tick call x 4 payloads, throw/limits have one case per program / grid point; limits-width = N in {L-1,L,L+1,4L} siblings at nesting depth 1-2 of 9 constructs (calls, direct evals, trampolines, forEach, host re-entry, JSON.parse reviver, JSON.stringify plain/replacer/toJSON) must get the verdict of a single one; interrupt-reenter = non-panicking interrupt function that re-enters the runtime (3 ways) at every step of the depth-1 wrappers; interrupt-sites = 13 loop/polling-site shapes x 10 wrappers x 4 panic values x every step k <= 26; limits-mixed = every sequence (length <= 4 quick, <= 5 thorough) over {call, direct eval, call trampoline, indirect eval} x L 0..9 against the order-independent unit model; limits-entry = 23 Go-side entry routes at rest x L 0..5 x d around the threshold, each followed by rest-state and threshold-unmoved probes; headroom = 25 parse-failure / eval-abort histories x L x {1,2,L} repetitions x {Run, Otto.Eval}, each followed by the remaining-depth vector on the runtime and on a Copy (must equal a fresh runtime's); every follow-up program of the other families also ends with a one-run headroom probe under limit 8; halt-followup = 5 halt values x 2 histories x 11 entry routes x 5 host-function panic kinds, compared with the model and a fresh runtime; interrupt-value = 15 panic values (8 in quick, comparable and uncomparable) of the interrupt function x depth-1 wrappers x every step k; unbuffered = capacity-0 channel with a sender goroutine parked in the send before Run and at every step k; entry = 11 API entry routes x 4 channel-installation times x {pre-queued, every step k} x {panic, record}. Each case runs on a fresh runtime " +
+			"hostpanic at every tick call x 4 payloads, throw/limits have one case per program / grid point; limits-width = N in {L-1,L,L+1,4L} siblings at nesting depth 1-2 of 9 constructs (calls, direct evals, trampolines, forEach, host re-entry, JSON.parse reviver, JSON.stringify plain/replacer/toJSON) must get the verdict of a single one; interrupt-reenter = non-panicking interrupt function that re-enters the runtime (3 ways) at every step of the depth-1 wrappers; interrupt-sites = 13 loop/polling-site shapes x 10 wrappers x 4 panic values x every step k <= 26; limits-mixed = every sequence (length <= 4 quick, <= 5 thorough) over {call, direct eval, call trampoline, indirect eval} x L 0..9 against the order-independent unit model; limits-entry = 23 Go-side entry routes at rest x L 0..5 x d around the threshold, each followed by rest-state and threshold-unmoved probes; headroom = 25 parse-failure / eval-abort histories x L x {1,2,L} repetitions x {Run, Otto.Eval}, each followed by the remaining-depth vector on the runtime and on a Copy (must equal a fresh runtime's); every follow-up program of the other families also ends with a one-run headroom probe under limit 8; exit-stage = 15 Go-side routes that hand a source text to the runtime x 15 source kinds (exits at the lexer, parser, early-error and regexp-literal stage before any code ran; throw, TypeError, stack-limit RangeError, host panic, interrupt halt; 2 normal controls) x L in {0,10} x 6 things in between (nothing, Go API calls that start no program, a second Run / Otto.Eval of valid / unparsable source) x {runtime, Copy()} x 18 ways to be the FIRST program afterwards (eval code entered through Otto.Call / Value.Call / Object.Call of eval, script functions with direct or indirect eval, native callback, toString, accessor, Function constructor, host re-entry; host programs through Run, Otto.Eval, nested Otto.Eval), observing the attributes of the bindings that program declares (descriptor, delete, typeof) against the ES5 10.4.2/10.5 model and a fresh runtime; halt-followup = 5 halt values x 2 histories x 11 entry routes x 5 host-function panic kinds, compared with the model and a fresh runtime; interrupt-value = 15 panic values (8 in quick, comparable and uncomparable) of the interrupt function x depth-1 wrappers x every step k; unbuffered = capacity-0 channel with a sender goroutine parked in the send before Run and at every step k; entry = 11 API entry routes x 4 channel-installation times x {pre-queued, every step k} x {panic, record}. Each case runs on a fresh runtime " +
 			"(plus a follow-up program and a second injected run on the same runtime). A case is non-trivial when the injection lands while the " +
 			"runtime is not at global level (a function/native frame, a pending label or a try/catch block is active at step k) or, for the " +
 			"throw/hostpanic/limits families, when the abnormal exit crosses at least one wrapper frame.",
@@ -32,6 +32,7 @@ func init() {
 			{Name: "limits-mixed", Run: runLimitsMixed},
 			{Name: "limits-entry", Run: runLimitsEntry},
 			{Name: "headroom", Run: runHeadroomFamily},
+			{Name: "exit-stage", Run: runExitStage},
 			{Name: "halt-followup", Run: runHaltFollowup},
 			{Name: "entry", Run: runEntryFamily},
 			{Name: "unbuffered", Run: runUnbufferedFamily},
